@@ -22,6 +22,13 @@ Theorem C18_accepted_never_rejected : forall c,
 Proof. exact accepted_never_rejected. Qed.
 Print Assumptions C18_accepted_never_rejected.
 
+(* the validity period itself (X509::is_time_valid, asked directly with chosen instants in the
+   correspondence run): valid exactly from notBefore to notAfter, ends included, at millisecond
+   resolution -- a certificate that expired a second ago is expired *)
+Theorem C18_time_valid_iff : forall nb na now, time_status nb na now = Good <-> nb <= now <= na.
+Proof. exact time_valid_iff. Qed.
+Print Assumptions C18_time_valid_iff.
+
 (* the same for every history of validations on one store instance: each verdict is the one the
    store state at that moment prescribes *)
 Theorem C18_oracle : forall c : case, known c = 0 -> oracle c (run c) = true.
